@@ -10,7 +10,9 @@ trap 'git -C /repo checkout -- . ; git -C /repo clean -fdq' EXIT
 PROPS="$*"
 if [ -z "$PROPS" ]; then PROPS=$(python3 -c "import json;print(' '.join(c['property_id'] for c in json.load(open('/verif/MANIFEST.json'))['checks']))"); fi
 OUT=$(mktemp -d)
-for p in $PROPS; do
+/verif/bin/hagcheck -property "$(echo $PROPS | tr " " ",")" -tier quick -out "$OUT" > "$OUT/all.log" 2>&1
+awk "/^hagcheck property=/{p=\$2} /^== /{print} /rule=|^UNDECIDED/{print}" "$OUT/all.log" | sed "s/^ *//" | cut -c1-260 | grep -v "^== .* exit=0" | sort -u | head -60
+for p in __NONE__; do
   /verif/bin/hagcheck -property $p -tier quick -out "$OUT" > "$OUT/$p.log" 2>&1; code=$?
   if [ $code -ne 0 ]; then
     echo "== $p exit=$code"; grep "rule=\|^UNDECIDED" "$OUT/$p.log" | sed 's/^ *//' | cut -c1-260 | sort -u | head -8
